@@ -26,3 +26,65 @@ Theorem C02_root_reader_returns_only_intact_blocks :
     Forall (intact_root hok) (s_blocks out).
 Proof. exact root_read_all_intact. Qed.
 Print Assumptions C02_root_reader_returns_only_intact_blocks.
+
+(* (b) truncation.  For every constructed CARv1 (any roots, any blocks that fit the limits and hash
+   to their CIDs), every option row, and every cut k that is not on a section boundary, the v2
+   BlockReader either fails to open (cut inside the header) or returns exactly the complete blocks in
+   front of the cut and then an error that is NOT a clean end-of-archive. *)
+From GoCarProofs Require Import BytesFacts VarintFacts CidFacts HeaderFacts ScanFacts ScanTrunc.
+Theorem C02_truncation_is_never_a_clean_eof :
+  forall hok hdrdec o roots bs k,
+    archive_ok hok hdrdec o roots bs ->
+    k < blen (enc_payload roots bs) ->
+    ~ (exists j, (j <= length bs)%nat /\
+                 k = blen (ld (enc_header (Some roots) 1)) + blen (enc_sections (firstn j bs))) ->
+    (k < blen (ld (enc_header (Some roots) 1)) /\
+       exists e, br_read_all hok hdrdec o (take k (enc_payload roots bs)) = Err e)
+    \/ (blen (ld (enc_header (Some roots) 1)) <= k /\ exists j e, (j < length bs)%nat /\ e <> EEof /\
+          br_read_all hok hdrdec o (take k (enc_payload roots bs))
+          = Ok (1, roots, mkscan (firstn j bs) e)).
+Proof. exact br_read_all_trunc_v1. Qed.
+Print Assumptions C02_truncation_is_never_a_clean_eof.
+
+(* (c) corruption.  A section whose bytes do not hash to its CID (what flipping a byte of block i's
+   data or digest produces, unless the hash function collides -- that is the hypothesis hash_bad)
+   makes a verifying scan return exactly the blocks in front of it and then an error. *)
+Theorem C02_corrupted_block_stops_the_scan_with_an_error :
+  forall hok hdrdec o roots pre c d rest,
+    o_trusted o = false ->
+    hdr_good hdrdec roots -> blen (enc_header (Some roots) 1) <= o_maxh o ->
+    blen (enc_header (Some roots) 1) < two63 ->
+    Forall (block_ok (o_maxs o)) pre -> Forall (hash_good hok) pre ->
+    block_ok (o_maxs o) (c, d) -> hash_bad hok (c, d) ->
+    br_read_all hok hdrdec o
+      (ld (enc_header (Some roots) 1) ++ enc_sections pre ++ enc_section c d ++ rest)
+    = Ok (1, roots, mkscan pre EOther).
+Proof. exact br_read_all_corrupt_v1. Qed.
+Print Assumptions C02_corrupted_block_stops_the_scan_with_an_error.
+
+(* the intact archive reads back completely (so the two theorems above are about real deviations) *)
+Theorem C02_intact_archive_reads_back :
+  forall hok hdrdec o roots bs, archive_ok hok hdrdec o roots bs ->
+    br_read_all hok hdrdec o (enc_payload roots bs) = Ok (1, roots, mkscan bs EEof).
+Proof. exact br_read_all_v1. Qed.
+Print Assumptions C02_intact_archive_reads_back.
+
+(* (b) for CARv2 containers (pragma, 40-byte header, any data padding, anything after the payload):
+   a cut inside the payload window that is not on a section boundary is a failed open or the complete
+   blocks in front of the cut followed by an error that is not a clean EOF.  The only assumption on
+   the CBOR oracle is that it decodes the 10-byte pragma body as {version: 2}. *)
+From GoCarProofs Require Import ScanTruncV2.
+Theorem C02_truncation_is_never_a_clean_eof_v2 :
+  forall hok hdrdec, hdrdec pragma_body = Some ([], 2) ->
+  forall o roots bs dpad ioff tail k,
+    archive_ok hok hdrdec o roots bs -> 10 <= o_maxh o ->
+    51 + dpad < two63 -> ioff < two63 -> 0 < blen (enc_payload roots bs) < two63 ->
+    51 + dpad <= k -> k < 51 + dpad + blen (enc_payload roots bs) ->
+    ~ (exists j, (j <= length bs)%nat /\
+         k = 51 + dpad + blen (ld (enc_header (Some roots) 1)) + blen (enc_sections (firstn j bs))) ->
+    (exists e, br_read_all hok hdrdec o (take k (container dpad ioff (enc_payload roots bs) tail)) = Err e)
+    \/ (exists j e, (j < length bs)%nat /\ e <> EEof /\
+          br_read_all hok hdrdec o (take k (container dpad ioff (enc_payload roots bs) tail))
+          = Ok (2, roots, mkscan (firstn j bs) e)).
+Proof. exact br_read_all_trunc_v2. Qed.
+Print Assumptions C02_truncation_is_never_a_clean_eof_v2.
